@@ -214,3 +214,70 @@ func TestVerifC04Configurations(t *testing.T) {
 }
 
 var _ = strings.Contains
+
+const contentionName = "TestVerifC04CombinerContention"
+
+// TestVerifC04CombinerContention runs Reduce programs whose producer tasks share one machine and
+// contend for the machine-wide combine buffers (machine combiners on), next to the same programs with
+// machine combiners off and on the local executor: the rows must be the same everywhere.
+func TestVerifC04CombinerContention(t *testing.T) {
+	rec := vt.New("C04", "combiner-contention",
+		"enumeration with repetition: ReaderFunc(2..4 shards x 400 rows over {8, 64, 300} keys, yielding the processor every 7 calls) -> Reduce under {local; bigmachine with machine combiners off / on} x machine procs {2, 4} with max-load 1.0 (several producer tasks of one Reduce run at the same time on one machine and share its combine buffers), each configuration repeated 6 (thorough 40) times in one session; oracle: rows equal the reference under every configuration; non-trivial = machine combiners on; distinct by (configuration, shards, keys, repetition)")
+	if _, only := vt.Replays(contentionName); only {
+		return
+	}
+	reps := vt.Pick(6, 40)
+	idx := 0
+	reported := false
+	for _, cfg := range []runner.Config{
+		{Exec: "local", Parallelism: 4},
+		{Exec: "bigmachine", Parallelism: 4, Machineprocs: 2, MaxLoad: 1.0},
+		{Exec: "bigmachine", Parallelism: 4, Machineprocs: 2, MaxLoad: 1.0, MachineCombiners: true},
+		{Exec: "bigmachine", Parallelism: 4, Machineprocs: 4, MaxLoad: 1.0, MachineCombiners: true},
+		{Exec: "bigmachine", Parallelism: 8, Machineprocs: 4, MaxLoad: 1.0, MachineCombiners: true, Chunk: 8},
+	} {
+		idx++
+		if !vt.Mine(idx) {
+			continue
+		}
+		sess := runner.Start(cfg)
+		wedgedSess := false
+		for rep := 0; rep < reps && !reported; rep++ {
+			for _, nshard := range []int{2, 3, 4} {
+				for _, nkeys := range []int{8, 64, 300} {
+					src := progen.Node{Op: "readerfunc", Cols: []progen.Col{progen.TInt, progen.TInt}, NShard: nshard, ShardRows: make([][][]int, nshard), Fn: &progen.Fn{YieldN: 7}}
+					for s := 0; s < nshard; s++ {
+						for i := 0; i < 400; i++ {
+							src.ShardRows[s] = append(src.ShardRows[s], []int{(i*7 + s) % nkeys, 1})
+						}
+					}
+					spec := progen.Spec{Nodes: []progen.Node{src, {Op: "reduce", In: []int{0}, Fn: &progen.Fn{YieldN: 5}}}}
+					c := Case{Spec: spec, Cfg: cfg}
+					err, sig, wedged := runCase(sess, c)
+					rec.Case(cfg.MachineCombiners, vt.Hash("contention", cfg.String(), nshard, nkeys, rep), "cfg:"+cfg.String())
+					if cfg.MachineCombiners && rec.WantSample("contention") {
+						rec.Sample("contention", map[string]interface{}{"cfg": cfg.String(), "nshard": nshard, "keys": nkeys})
+					}
+					if err != nil && !reported {
+						reported = true
+						rec.Violation(testName, sig, err.Error(), c)
+						t.Errorf("%s, %d shards, %d keys, repetition %d: %v", cfg, nshard, nkeys, rep, err)
+					}
+					if wedged {
+						wedgedSess = true
+						break
+					}
+				}
+				if wedgedSess {
+					break
+				}
+			}
+			if wedgedSess {
+				break
+			}
+		}
+		if !wedgedSess {
+			sess.Close()
+		}
+	}
+}
